@@ -53,6 +53,10 @@ Verdict(t) ==
   IF ~LookupOK(t.lookup_reduced, t.number, S) THEN "REJECT LookupReduced" \o KnownLatt(t, S) ELSE
   IF ~LookupOK(t.lookup_reduced_again, t.number, S) THEN "REJECT LookupReducedRepeated" ELSE
   IF \E k \in DOMAIN t.perms : ~PermOK(t, S, k) THEN "REJECT PermutedReduce" \o KnownLatt(t, S) ELSE
+  \* a group constructed after the caller edited the first object's operations in place: matrices read directly
+  IF t.fresh.exc # "" \/ t.fresh.off THEN "REJECT FreshConstruction" ELSE
+  IF {Enc([r |-> <<<<m[1][1], m[1][2], m[1][3]>>, <<m[1][4], m[1][5], m[1][6]>>, <<m[1][7], m[1][8], m[1][9]>>>>, t |-> m[2]]) :
+         m \in {t.fresh.mats[i] : i \in DOMAIN t.fresh.mats}} # CodeSet(t.table_ops) THEN "REJECT FreshConstruction" ELSE
   IF t.reduced # Reduce(t.ops, t.latt) THEN "ACCEPT drift=Reduce" ELSE
   IF ~StepsOK(t) THEN "ACCEPT drift=ReduceSteps" ELSE
   IF Len(t.steps) = 0 THEN "ACCEPT note=no-step-events" ELSE
